@@ -22,3 +22,15 @@ package schemas
 //@ func MergeTypes
 //@   props C04 C11
 //@   every-iteration-calls mergo.Merge
+
+// Type lists are equal iff the receiver is non-nil, the lengths agree and the
+// entries agree position by position (used to decide whether anyOf/allOf
+// branches have one common type).
+//@ func (*TypeList).Equals
+//@   props C11 C03
+//@   shape t = nil | new
+//@   shape *t = strs() | strs(string) | strs(string,null) | strs(null,string) | strs(object)
+//@   shape b = strs() | strs(string) | strs(string,null) | strs(null,string) | strs(object) | strs(string,object)
+//@   assigns nothing
+//@   ensures [C11,C03] nil-receiver: t == nil ==> !result
+//@   ensures [C11,C03] elementwise: t != nil ==> (result <==> *t == b)
